@@ -11,6 +11,7 @@ the reference impedance is truncated.
 """
 from ..core import Finding, RuleResult
 from ..facts import AnalysisBroken
+from ..canon import Canon
 
 PROPS = ("C07",)
 
@@ -47,6 +48,11 @@ def run(P, tier="quick"):
             if not pi or pi[0] >= len(c.args()):
                 continue
             a = c.args()[pi[0]].strip()
+            if a.k == "DeclRefExpr" and a.refkind == "local":
+                # `const int precision = vcp->vc_dprecision;` hoisted out of the loop
+                d = Canon(f).single_def(a.refdecl)
+                if d is not None:
+                    a = d.strip()
             if a.k != "MemberExpr" or a.member not in (ff, df):
                 continue
             cplx = [i for i, p in enumerate(g.params) if "complex" in ((p.get("ct") or "") + (p.get("t") or "")).lower()]
